@@ -16,7 +16,7 @@ SERVER_HELPERS = ['emit', 'send', 'call', 'enter_room', 'leave_room',
                   'session', 'disconnect']
 CLIENT_HELPERS = ['emit', 'send', 'call', 'disconnect']
 FALSY = [0, '', False, [], 0.0, (), {}]
-REG_NAMESPACES = ['/reg', '/', '/x/y', '/é', '*']
+REG_NAMESPACES = ['/reg', '/', '/x/y', '/é', '*', 'noslash']
 
 
 class Sentinel:
@@ -61,6 +61,14 @@ def run_kind(ctx, kind, loop):
                               % type(target).__name__,
                               {'class': kind, 'namespace': key,
                                'bound_to': repr(bound)})
+            if key != value.namespace:
+                # events are routed by this key, the helpers default to
+                # value.namespace: they must name the same namespace
+                ctx.violation(None, '%s.register_namespace filed the object '
+                              'under %r although its helpers default to %r'
+                              % (type(target).__name__, key,
+                                 value.namespace),
+                              {'class': kind, 'namespace': key})
             dict.__setitem__(self_, key, value)
     target.namespace_handlers = Registry(target.namespace_handlers)
     # the same namespace object may have been registered with another server /
@@ -74,6 +82,9 @@ def run_kind(ctx, kind, loop):
             decoy.register_namespace(nsobj)
             ctx.count('re_registrations')
         target.register_namespace(nsobj)
+        if not inspect.iscoroutinefunction(getattr(type(target), 'emit')):
+            if not concurrent_helpers(ctx, kind, target, nsobj, reg):
+                return
         for helper in helpers:
             if not hasattr(nsobj, helper):
                 ctx.violation(None, '%s lacks helper %s' % (kind, helper),
@@ -128,6 +139,63 @@ def run_kind(ctx, kind, loop):
                 return
             if ctx.too_many_violations():
                 return
+
+
+def concurrent_helpers(ctx, kind, target, nsobj, reg):
+    """Threaded classes: a helper has the effect of the same-named method
+    also while another helper call of the same object is in progress in
+    another thread (handlers of one namespace run in a thread each): while
+    call() waits for its acknowledgement, emit() and send() still reach the
+    server / client at once."""
+    import threading
+    entered = threading.Event()
+    release = threading.Event()
+    seen = []
+
+    def blocking_call(*a, **k):
+        entered.set()
+        release.wait(20)
+        return 'acked'
+
+    def rec(name):
+        def f(*a, **k):
+            seen.append(name)
+        return f
+    target.call = blocking_call
+    target.emit = rec('emit')
+    target.send = rec('send')
+    out = {}
+    try:
+        ta = threading.Thread(target=lambda: out.setdefault(
+            'call', nsobj.call('q', 1)), daemon=True)
+        ta.start()
+        if not entered.wait(10):
+            ctx.count('concurrent_helper_probes_not_set_up')
+            return True
+        for name, args in (('emit', ('ev', 1)), ('send', ('data',))):
+            tb = threading.Thread(target=lambda n=name, a=args: getattr(
+                nsobj, n)(*a), daemon=True)
+            tb.start()
+            tb.join(15)
+            ctx.count('concurrent_helper_probes')
+            if name not in seen:
+                ctx.violation(None, '%s.%s() did not reach the %s while a '
+                              'call() of the same namespace object was '
+                              'waiting for its acknowledgement in another '
+                              'thread' % (kind, name,
+                                          type(target).__name__),
+                              {'class': kind, 'helper': name,
+                               'registered_namespace': reg,
+                               'blocked': tb.is_alive()})
+                return False
+    finally:
+        release.set()
+        for n in ('call', 'emit', 'send'):
+            try:
+                delattr(target, n)
+            except AttributeError:
+                pass
+    return True
 
 
 def explore_helper(ctx, kind, helper, nsobj, reg, real_params, calls, result,
@@ -249,6 +317,7 @@ def run(ctx):
         'parameters the underlying method lacks (vestigial) are skipped and '
         'listed', 'explicit namespace values are truthy strings']
     ctx.require('registrations_checked', 8)
+    ctx.require('concurrent_helper_probes', 4)
     ctx.require('helper_calls', 500)
     ctx.require('arguments_compared', 500)
     ctx.require('namespace_checked', 500)
